@@ -91,14 +91,22 @@ Theorem C14_exact_any_idle_device :
 Proof. exact raw_files_exact. Qed.
 Print Assumptions C14_exact_any_idle_device.
 
-(* Not proved as a theorem (kept visible): the formulation with the premise on the SCRIPTS instead of on the answers,
-     forall cycles ws, (every open succeeds) -> admissible ws 0 (all packets of all cycles, in order) ->
-       all_ok rs /\ the conclusion of C14_exact,
-   where [admissible ws k (b :: rest)] says that some pattern [pat] with [delivers ws k (length b) pat], sum = length b,
-   fewer than three zeros and no trailing zero exists and [admissible ws (k + length pat) rest].  It follows from
-   C14_exact, Pwrite_all and a simulation of FdTable.os_pwrite by Pwrite.prim1 (same loop, Pwrite.fw_loop, instantiated
-   twice); what is missing is that simulation lemma and the bookkeeping of the global pwrite index.  The correspondence
-   run of the check exercises exactly this formulation (scripts are the input, answers are compared). *)
+(* C14_exact_scripts.  The same with the premise on the operating system's SCRIPTS instead of on the answers of the
+   calls: every open succeeds, every path is non-empty, and the write script [ws] is admissible for the packets of all
+   acquisitions in order (Spec.admissible: each packet meets SOME short-write pattern without error, with fewer than
+   three zero-length results, delivering all its bytes; the next packet continues where this one's calls end).  Then
+   every call of the history answers Device_Ok and every file is exact.  [env_fds]: any descriptors already open. *)
+Theorem C14_exact_scripts :
+  forall fuel cycles env_fds ws, 4 <= fuel ->
+    (forall c, In c cycles -> c_path c <> EmptyString) ->
+    admissible ws 0 (flat_map c_pkts cycles) ->
+    exists rs d' o',
+      run fuel fixed (history cycles) (dev_init KRaw) (os_init env_fds (fun _ => COk) ws) = Ret (rs, d', o') /\
+      all_ok rs /\
+      forall pre c post, cycles = pre ++ c :: post -> (forall c', In c' post -> c_path c' <> c_path c) ->
+      fs o' (c_path c) = Some (c_bytes c).
+Proof. exact c14_exact_scripts_total. Qed.
+Print Assumptions C14_exact_scripts.
 
 (* ---------------------------------------------------------------------------------------------------------------
    C14_uri.  "file://p" and "p" name the same file: the prefix is stripped before anything else happens, in raw_set
@@ -132,6 +140,16 @@ Example Pwrite_fail_example :     (* three zero-length results *)
   file_write1 (fun _ => WCount 0) (0, []) 0 (bytes_of [1]) = ((3, []), false) /\
   file_write1 (fun k => if k =? 1 then WErr else WCount 1) (0, []) 0 (bytes_of [1; 2]) = ((2, bytes_of [1]), false).
 Proof. vm_compute. auto. Qed.
+
+(* the write script of the examples is admissible for the four packets of cyc_a, cyc_b: patterns [1;0;2], [], [2], [0;0;2] *)
+Example admissible_example :
+  admissible ws_ex 0 (flat_map c_pkts [cyc_a; cyc_b]).
+Proof.
+  exists [1; 0; 2]. repeat (split; [vm_compute; auto; congruence|]).
+  exists []. repeat (split; [vm_compute; auto; congruence|]).
+  exists [2]. repeat (split; [vm_compute; auto; congruence|]).
+  exists [0; 0; 2]. repeat (split; [vm_compute; auto; congruence|]). exact I.
+Qed.
 
 (* two acquisitions to different paths, short writes in both, both uri spellings, an empty packet *)
 Example C14_exact_example :
